@@ -451,7 +451,8 @@ func (st *State) mapLen(m Val) Term {
 	k := "MC#" + typeKey(m.T.Underlying())
 	h := st.heapTerm(k, SInt, false)
 	t := Select(h, m.L[0])
-	st.assumeOnce(And(Ge(t, I(0)), Implies(Eq(m.L[0], I(0)), Eq(t, I(0)))))
+	// a map never holds more than 2^40 entries (it would not fit in memory)
+	st.assumeOnce(And(Ge(t, I(0)), Le(t, I(1<<40)), Implies(Eq(m.L[0], I(0)), Eq(t, I(0)))))
 	return t
 }
 
@@ -575,16 +576,51 @@ func (st *State) countEvents(name string) Term {
 	return I(int64(n))
 }
 
+// eventInLoop: can an event of that name be produced inside a loop of the
+// function (so that its count after a loop cut is only a lower bound)?
 func (c *Ctx) eventInLoop(name string) bool {
-	if !strings.HasPrefix(name, "call:") {
-		return true
+	kind, subj := name, ""
+	if i := strings.Index(name, ":"); i >= 0 {
+		kind, subj = name[:i], name[i+1:]
 	}
-	want := strings.TrimPrefix(name, "call:")
 	for _, li := range c.eng.loopsOf(c.fn) {
 		for b := range li.body {
 			for _, in := range b.Instrs {
-				if ci, ok := in.(ssa.CallInstruction); ok && calleeName(ci.Common()) == want {
-					return true
+				switch x := in.(type) {
+				case ssa.CallInstruction:
+					cn := calleeName(x.Common())
+					if kind == "call" {
+						if cn == subj {
+							return true
+						}
+						continue
+					}
+					if kind == "close" && cn == "close" && len(x.Common().Args) > 0 && subjectOf(x.Common().Args[0]) == subj {
+						return true
+					}
+					// native events are named after the subject of the first argument
+					if (strings.HasPrefix(kind, "atomic.") || strings.HasPrefix(kind, "wg.") || kind == "lock" || kind == "unlock" || kind == "rlock" || kind == "runlock" || kind == "once.do") &&
+						len(x.Common().Args) > 0 && subjectOf(x.Common().Args[0]) == subj {
+						return true
+					}
+				case *ssa.Send:
+					if (kind == "send" || kind == "acquire") && subjectOf(x.Chan) == subj {
+						return true
+					}
+				case *ssa.UnOp:
+					if x.Op == token.ARROW && (kind == "recv" || kind == "release") && subjectOf(x.X) == subj {
+						return true
+					}
+				case *ssa.Select:
+					for _, ss := range x.States {
+						if subjectOf(ss.Chan) == subj {
+							return true
+						}
+					}
+				case *ssa.Go:
+					if kind == "go" {
+						return true
+					}
 				}
 			}
 		}
@@ -1023,6 +1059,18 @@ func (e *Engine) enterLoop(st *State, li *loopInfo, from *ssa.BasicBlock, k cont
 // ghostInLoop: a ghost variable is havocked at a loop head only if a hook
 // inside the loop body assigns it.
 func (c *Ctx) ghostInLoop(li *loopInfo, g string) bool {
+	if strings.HasPrefix(g, "$visited!") {
+		for b := range li.body {
+			for _, in := range b.Instrs {
+				if nx, ok := in.(*ssa.Next); ok {
+					if rg, ok := nx.Iter.(*ssa.Range); ok && "$visited!"+subjectOf(rg.X) == g {
+						return true
+					}
+				}
+			}
+		}
+		return false
+	}
 	if strings.HasPrefix(g, "$") {
 		return false
 	}
@@ -1330,7 +1378,11 @@ func (st *State) protectCheck(in ssa.Instruction, p *PtrInfo) {
 			mp := &PtrInfo{Kind: pkHeap, Root: p.Root, Ref: p.Ref, Path: []int{i}}
 			mv := st.loadQuiet(mp, nil)
 			a0 := Term{"A0", SInt}
-			st.oblige(in, "protect", Or(mv.L[0], Gt(p.Ref, a0)), fmt.Sprintf("%s.%s is accessed only while %s is held", tn, fname, mu))
+			heldT := mv.L[0]
+			if _, isCh := sst.Field(i).Type().Underlying().(*types.Chan); isCh {
+				heldT = Select(st.heapTerm("CH#held", SBool, false), mv.L[0])
+			}
+			st.oblige(in, "protect", Or(heldT, Gt(p.Ref, a0)), fmt.Sprintf("%s.%s is accessed only while %s is held", tn, fname, mu))
 			return
 		}
 	}
@@ -1464,8 +1516,9 @@ func (e *Engine) step(st *State, instr ssa.Instruction) {
 		if _, ok := x.T.Underlying().(*types.Map); !ok {
 			unsup("range over %s", x.T)
 		}
-		st.set(in, Val{T: in.Type(), L: x.L, Tup: nil, P: nil, C: nil})
 		st.fr.regs[in] = Val{T: x.T, L: x.L}
+		// number of keys handed out so far by this iteration (see doNext)
+		st.ghost["$visited!"+subjectOf(in.X)] = intVal(I(0))
 	case *ssa.Send:
 		e.doSend(st, in, st.get(in.Chan), st.get(in.X))
 	case *ssa.SliceToArrayPointer:
@@ -1955,6 +2008,15 @@ func (e *Engine) doNext(st *State, in *ssa.Next, k func(*State)) {
 	ok := st.ctx.freshConst("next!ok", SBool)
 	key := st.freshVal(mt.Key(), st.ctx.freshName("next!k"))
 	st.assume(Implies(ok, st.mapHas(m, key)))
+	// a range over a map hands out each key at most once: while it goes on, fewer keys
+	// have been handed out than the map holds
+	if rg, isRange := in.Iter.(*ssa.Range); isRange {
+		gk := "$visited!" + subjectOf(rg.X)
+		if cur, has := st.ghost[gk]; has {
+			st.assume(Implies(ok, Lt(cur.term(), st.mapLen(m))))
+			st.ghost[gk] = intVal(st.named(Ite(ok, Add(cur.term(), I(1)), cur.term())))
+		}
+	}
 	val := st.mapLookup(m, key, false, nil)
 	st.fr.regs[in] = Val{T: in.Type(), Tup: []Val{boolVal(ok), key, val}}
 	k(st)
